@@ -231,7 +231,7 @@ def work_git(bins, seed, idx, tmp):
 
 def run(ctx):
     quick = ctx.tier == "quick"
-    per = 350 if quick else 6000
+    per = 350 if quick else 15000
     for r in core.pmap(work, [(ctx.bins, "%s/%d/%d" % (ctx.prop, ctx.seed, i), per) for i in range(32)]):
         ctx.merge_counts(r["st"])
         ctx.evaluations += r["st"]["runs"]
@@ -240,7 +240,7 @@ def run(ctx):
             ctx.refute(sig, why, case)
         for s in r["samples"][:1]:
             ctx.sample(s, cap=3)
-    nrep = 24 if quick else 300
+    nrep = 24 if quick else 700
     for r in core.pmap(work_git, [(ctx.bins, "%s/%d" % (ctx.prop, ctx.seed), i, ctx.tmp) for i in range(nrep)]):
         ctx.merge_counts(r["st"])
         ctx.evaluations += r["st"]["runs"]
